@@ -48,13 +48,15 @@ FamNest ==
             p2 |-> Permit(Or(<<Not(And(<<Or(<<CSS("a")>>), CSS("b")>>))>>)),       \* !(a && b)
             p3 |-> Permit(Or(<<CSS("a"), And(<<Or(<<CSS("b")>>), CSS("c")>>)>>)),  \* a || (b && c)
             p4 |-> Permit(And(<<Or(<<CSS("p3")>>), Not(CSS("p1"))>>)),            \* permits.p3 && !permits.p1
-            p5 |-> Permit(Or(<<Not(Or(<<Or(<<CSS("a")>>), And(<<Or(<<CSS("b")>>), CSS("c")>>)>>))>>))],  \* !(a || (b && c)): an intersection below a union below a negation
+            p5 |-> Permit(Or(<<Not(Or(<<Or(<<CSS("a")>>), And(<<Or(<<CSS("b")>>), CSS("c")>>)>>))>>)),
+            p6 |-> Permit(Or(<<Not(Not(CSS("c")))>>))],  \* !(a || (b && c)): an intersection below a union below a negation
+            \* (p6 below: a negation directly below a negation)
      R |-> [v |-> Rel(<<<<"U","">>, <<"D","p1">>, <<"D","p2">>>>, None)]],
    U |-> << Tup("D","d","a", Id("u")), Tup("D","d","b", SS("G","g","m")), Tup("D","d","c", SS("G","h","m")),
             Tup("G","g","m", Id("u")), Tup("G","g","m", SS("G","h","m")), Tup("G","h","m", Id("u")),
             Tup("D","d","a", SS("G","h","m")), Tup("R","r","v", SS("D","d","p1")), Tup("R","r","v", SS("D","d","p2")) >>,
    Q |-> << Tup("D","d","p1", Id("u")), Tup("D","d","p2", Id("u")), Tup("D","d","p3", Id("u")),
-            Tup("D","d","p4", Id("u")), Tup("R","r","v", Id("u")), Tup("D","d","p3", Id("w")), Tup("D","d","p5", Id("u")) >>]
+            Tup("D","d","p4", Id("u")), Tup("R","r","v", Id("u")), Tup("D","d","p3", Id("w")), Tup("D","d","p5", Id("u")), Tup("D","d","p6", Id("u")) >>]
 
 FamPlain ==
   [cfg |-> [n |-> [x \in {} |-> Rel(<<>>, None)]],
@@ -107,7 +109,36 @@ FamDiam ==
             Tup("n","b","r", SS("n","c","r")), Tup("n","a","r", SS("n","a","r")), Tup("n","c","r", SS("n","a","r")) >>,
    Q |-> << Tup("n","s","r", Id("u")), Tup("n","a","r", Id("u")), Tup("n","b","r", Id("u")), Tup("n","s","r", Id("w")) >>]
 
-Fams == [diam |-> FamDiam, rw |-> FamRw, nest |-> FamNest, plain |-> FamPlain, rec |-> FamRec, strictx |-> FamStrictX, alias |-> FamAlias]
+\* traverse() over a relation whose parents live in two namespaces and share an object name (the object id does not identify a parent)
+FamTtu2 ==
+  [cfg |-> [
+     U |-> [x \in {} |-> Rel(<<>>, None)],
+     E |-> [a |-> Rel(<<<<"U","">>>>, None)],
+     D |-> [a |-> Rel(<<<<"U","">>>>, None), par |-> Rel(<<<<"D","">>, <<"E","">>>>, None),
+            viapar |-> Permit(Or(<<TTU("par", "a")>>)),
+            notpar |-> Permit(Or(<<Not(TTU("par", "a"))>>)),
+            \* a deny list over a relation that can only hold subject ids: in strict mode the direct lookup is the ONLY storage call
+            na |-> Permit(Or(<<Not(CSS("a"))>>))]],
+   U |-> << Tup("D","d","par", SS("D","x","")), Tup("D","d","par", SS("E","x","")),
+            Tup("D","x","a", Id("u")), Tup("E","x","a", Id("v")), Tup("E","x","a", Id("u")),
+            Tup("D","d","par", SS("E","y","")), Tup("E","y","a", Id("w")) >>,
+   Q |-> << Tup("D","d","viapar", Id("u")), Tup("D","d","viapar", Id("v")), Tup("D","d","viapar", Id("w")), Tup("D","d","notpar", Id("v")),
+            Tup("D","x","na", Id("u")), Tup("D","x","na", Id("v")) >>]
+
+\* permissions that call each other in a cycle (no negation on the cycle): least fixpoint, and the evaluation must end
+FamCyc ==
+  [cfg |-> [
+     U |-> [x \in {} |-> Rel(<<>>, None)],
+     D |-> [x |-> Rel(<<<<"U","">>>>, None), y |-> Rel(<<<<"U","">>>>, None),
+            a |-> Permit(And(<<Or(<<CSS("b")>>), CSS("x")>>)),     \* a = b && x
+            b |-> Permit(And(<<Or(<<CSS("a")>>), CSS("x")>>)),     \* b = a && x
+            c |-> Permit(Or(<<CSS("e"), CSS("x")>>)),              \* c = e || x
+            e |-> Permit(Or(<<CSS("c"), CSS("y")>>))]],            \* e = c || y
+   U |-> << Tup("D","d","x", Id("u")), Tup("D","d","y", Id("v")), Tup("D","d","x", Id("w")), Tup("D","d","y", Id("w")) >>,
+   Q |-> << Tup("D","d","a", Id("u")), Tup("D","d","b", Id("u")), Tup("D","d","c", Id("u")), Tup("D","d","e", Id("u")),
+            Tup("D","d","c", Id("v")), Tup("D","d","e", Id("z")) >>]
+
+Fams == [cyc |-> FamCyc, ttu2 |-> FamTtu2, diam |-> FamDiam, rw |-> FamRw, nest |-> FamNest, plain |-> FamPlain, rec |-> FamRec, strictx |-> FamStrictX, alias |-> FamAlias]
 \* the alias family's namespaces carry a '-' and cannot be record fields
 CfgOf(f) == IF f = "alias" THEN [n \in {"x", "a", "a-b"} |-> [y \in {} |-> Rel(<<>>, None)]] ELSE Fams[f].cfg
 W_2 == <<1, 100>>
@@ -176,6 +207,7 @@ Witness == CASE FamName = "rw"    -> {{2, 8}, {1, 3, 4, 5, 6}, {2, 3, 5, 6}}
              [] FamName = "alias" -> {{1, 2, 3, 4}, {1, 2, 5, 6}}
              [] FamName = "rec"   -> {{1, 2, 3}, {1, 3, 6, 9}}
              [] FamName = "nest"  -> {{2, 3, 4, 6}, {1, 3, 6}, {2, 4, 6}}    \* p5 denied through b && c only; p1 denied through c; b without c
+             [] FamName = "ttu2"  -> {{1, 2, 3, 4}, {1, 2, 4}, {1, 2, 3, 4, 5, 6, 7}}
              [] FamName = "diam"  -> {{1, 2, 3, 4, 5, 6}, {1, 4, 5, 6, 8}, {1, 2, 3, 4, 5, 6, 9}}
              [] OTHER -> {}
 Subsets == IF Sample = 0 THEN SUBSET (1..N) ELSE RandomSubset(Sample, SUBSET (1..N)) \cup {{}, 1..N} \cup Witness
